@@ -96,7 +96,7 @@ PROPS["C07"] = dict(
                "truth table read off the REAL node table after every operation must equal the specification's truth table computed without diagrams.",
     level_note="Trusted: Lean kernel + standard axioms; model-to-code tie is differential testing over generated sequences (<= 7 variables, <= 45 operations); usize as Nat.",
     technique="Lean 4 proof (refinement of an abstract Boolean-function spec by the memoised ite/restrict store) + correspondence check",
-    jobs=[Job("bdd", 1500, 60000, size=6, size_thorough=7,
+    jobs=[Job("bdd", 1500, 60000, size=6, size_thorough=7, fsets=("default", "none"), fsets_thorough=("default", "none", "all", "off-v1-f0"),
               relevant=heads(*OPS, "alltt", "dump"), nontrivial=nt_bdd),
           Job("bdd", 4, 60, size=17, size_thorough=18, extra=("big",), relevant=heads(*OPS, "alltt", "dump"),
               nontrivial=lambda st: int(st.get("memo", 0)) > 65536, label="huge-stores", timeout=1800, cap=28, chunk_min=1),
@@ -330,7 +330,7 @@ PROPS["C08"] = dict(
     level_note="Trusted: Lean kernel + {propext, Quot.sound}; nom combinators modelled by hand (tie is differential); formulaname observed through the derived Debug output; "
                "that the Rust parser never panics is observed (catch_unwind), not proved.",
     technique="Lean 4 proof (completeness by induction on the grammar, soundness by induction on fuel, scanners as necessary conditions) + correspondence check",
-    jobs=[Job("parser", 5000, 200000, size=6, size_thorough=8, relevant=heads("parse", "parsecheck"), nontrivial=nt_parser),
+    jobs=[Job("parser", 5000, 200000, size=6, size_thorough=8, relevant=heads("parse", "parsecheck", "parsechunks"), nontrivial=nt_parser),
           Job("parser", 1500, 100000, size=6, extra=("fuzz",), label="parser-fuzz", relevant=heads("parse"), nontrivial=nt_parser),
           Job("adf", 6, 60, size=2, extra=("deep",), needs_bins=True, relevant=heads("clideep"), nontrivial=lambda st: int(st.get("deep", 0)) >= 50, label="deep-nesting", timeout=600)],
     rule="valid stream: pretty-printed random ASTs (9 constructors, depth <= 4, 1-6 statements, duplicate/missing/undeclared s and ac) x random layouts x label classes "
